@@ -72,6 +72,11 @@ var leafCatalogue = []leafEdit{
 	{"enum(int):introduce", "integer", intS(none), intS(func(s *Schema) { s.Enum = enumOf(1, 2) }), int64(3)},
 	{"type:number->integer", "number", numS(none), intS(none), 1.5},
 	{"maximum(number):lower", "number", numS(func(s *Schema) { s.Max = i64(2500) }), numS(func(s *Schema) { s.Max = i64(1500) }), 2.0},
+	// the same with formats inside and outside the analyser's wideness table (format is an open vocabulary in Swagger 2.0)
+	{"maximum(int64):lower", "integer", intS(func(s *Schema) { s.Format = "int64"; s.Max = i64(100000) }), intS(func(s *Schema) { s.Format = "int64"; s.Max = i64(50000) }), int64(75)},
+	{"maximum(uint32):lower", "integer", intS(func(s *Schema) { s.Format = "uint32"; s.Max = i64(100000) }), intS(func(s *Schema) { s.Format = "uint32"; s.Max = i64(50000) }), int64(75)},
+	{"minimum(decimal):raise", "number", numS(func(s *Schema) { s.Format = "decimal"; s.Min = i64(0) }), numS(func(s *Schema) { s.Format = "decimal"; s.Min = i64(5000) }), 2.0},
+	{"maxLength(custom-format):lower", "string", strS(func(s *Schema) { s.Format = "slug"; s.MaxLen = i64(10) }), strS(func(s *Schema) { s.Format = "slug"; s.MaxLen = i64(5) }), "abcdefg"},
 	{"maxItems:lower", "array", arrS(func(s *Schema) { s.MaxItems = i64(3) }), arrS(func(s *Schema) { s.MaxItems = i64(1) }), []interface{}{"a", "b"}},
 	{"maxItems:introduce", "array", arrS(none), arrS(func(s *Schema) { s.MaxItems = i64(1) }), []interface{}{"a", "b"}},
 	{"minItems:raise", "array", arrS(func(s *Schema) { s.MinItems = i64(0) }), arrS(func(s *Schema) { s.MinItems = i64(2) }), []interface{}{"a"}},
@@ -322,7 +327,19 @@ func structural(g *G, base *Spec, kind string) *CatEdit {
 		if len(pi.Ops) < 2 {
 			pickOp(g, a, true) // adds a post operation when needed
 			if len(pi.Ops) < 2 {
-				pi.Ops = append(pi.Ops, &Operation{Method: "delete", Responses: []*Response{{Code: 200, Desc: "ok"}}, Params: pathParamsFor(pi)})
+				// a method the path does not have yet (a second "delete" would be the same endpoint, and removing one of the two no edit)
+				used := map[string]bool{}
+				for _, o := range pi.Ops {
+					used[o.Method] = true
+				}
+				m := "delete"
+				for _, c := range []string{"delete", "patch", "put", "post", "get", "head", "options"} {
+					if !used[c] {
+						m = c
+						break
+					}
+				}
+				pi.Ops = append(pi.Ops, &Operation{Method: m, Responses: []*Response{{Code: 200, Desc: "ok"}}, Params: pathParamsFor(pi)})
 			}
 		}
 		// removing a deprecated endpoint is documented as compatible: the catalogue removes a live one
